@@ -1,7 +1,7 @@
 """Property id -> check function."""
 import json
 
-from . import cert_checks, client_checks, conn_checks, data_checks, listen_checks
+from . import addr_checks, cert_checks, client_checks, conn_checks, data_checks, listen_checks
 from .common import *
 
 CHECKS = {
@@ -18,6 +18,7 @@ CHECKS = {
     "C13": listen_checks.check_C13,
     "C14": listen_checks.check_C14,
     "C15": listen_checks.check_C15,
+    "C16": addr_checks.check_C16,
     "C17": data_checks.check_C17,
     "C19": cert_checks.check_C19,
     "C20": client_checks.check_C20,
